@@ -423,4 +423,35 @@ Section C02Model.
     else if difference then map (v3scale O inv) v1 else v1.
   Definition cv_eigenvector_v (q : Q4) (ref v : list V3) (g : list atom) : T :=
     lsum (fun t => v3dot O (v3sub O (fst (fst t)) (snd (fst t))) (snd t)) (combine (combine (fit_positions q ref g) ref) v).
+  (* ---------------------------------------------------------------- the variable over a history of run-time changes
+     colvar::collect_cvc_values with the LIVE component parameters: componentCoeff / componentExp can be changed by
+     `cv colvar <name> modifycvcs` (colvar::update_cvc_config -> cvc::init re-reads them), components can be switched on
+     and off by `cv colvar <name> cvcflags` (set_cvc_flags, applied by update_cvc_flags at the next evaluation).
+     f_cv_single_cvc is decided once at initialisation and is NOT consulted when the value is combined. *)
+  Record sup_comp : Type := mkSupComp { su_coeff : T; su_exp : Z; su_active : bool }.
+  Inductive sup_event : Type :=
+  | SupModify (confs : list (option T * option Z))     (* one entry per component; (None, None) = empty string *)
+  | SupFlags (flags : list bool).
+  Definition sup_modify (conf : option T * option Z) (c : sup_comp) : sup_comp :=
+    mkSupComp (match fst conf with Some x => x | None => su_coeff c end)
+              (match snd conf with Some n => n | None => su_exp c end) (su_active c).
+  Definition sup_apply (comps : list sup_comp) (e : sup_event) : list sup_comp :=
+    match e with
+    | SupModify confs =>
+      if Nat.eqb (length confs) (length comps) then map (fun cc => sup_modify (fst cc) (snd cc)) (combine confs comps) else comps
+    | SupFlags flags =>
+      if Nat.eqb (length flags) (length comps)
+      then map (fun fc => mkSupComp (su_coeff (snd fc)) (su_exp (snd fc)) (fst fc)) (combine flags comps) else comps
+    end.
+  Definition sup_run (h : list sup_event) (comps : list sup_comp) : list sup_comp := fold_left sup_apply h comps.
+  (* scalar variable *)
+  Definition sup_scalar (comps : list sup_comp) (qs : list T) : T :=
+    fold_left (fun s cq => if su_active (fst cq)
+                           then s + su_coeff (fst cq) * (if Z.eqb (su_exp (fst cq)) 1 then snd cq else ipow (snd cq) (su_exp (fst cq)))
+                           else s) (combine comps qs) zero.
+  (* vector variable of dimension n: x.reset() then x += coeff * value for the enabled components *)
+  Definition vadd (a b : list T) : list T := map (fun ab => fst ab + snd ab) (combine a b).
+  Definition sup_vector (n : nat) (comps : list sup_comp) (qs : list (list T)) : list T :=
+    fold_left (fun s cq => if su_active (fst cq) then vadd s (map (fun x => su_coeff (fst cq) * x) (snd cq)) else s)
+              (combine comps qs) (repeat zero n).
 End C02Model.
